@@ -29,8 +29,18 @@ def make_world(tag, seq, opt):
     w.add('begin 2 %s' % hx(b'TestCfg'))
     # a third Config with its own JSON format options, used first: it must not influence the others
     w.add('cfg 3 %s - - none %s' % (hx('wide'), ['80:%s:0' % hx('    '), '80:-:0', '120:-:1'][len(seq) % 3]))
+    # a fourth Config built from the SAME JSON option value followed by an overriding one: building it
+    # must not change the third Config (WithConfig results are independent of each other)
+    spec3 = ['80:%s:0' % hx('    '), '80:-:0', '120:-:1'][len(seq) % 3]
+    spec4 = ['20:%s:1' % hx('\t'), '200:%s:1' % hx('  '), '10:%s:0' % hx('   ')][len(seq) % 3]
+    w.add('cfg 5 %s - - none %s' % (hx('wide5'), spec3))
     w.add('begin 3 %s' % hx(b'TestWide'))
+    w.add('sajson 5 3 s %s' % hx(b'{"keys":[1,2,3],"b":{"z":1,"a":2}}'))     # before the fourth Config exists
+    w.add('cfg 4 %s - - none %s+%s' % (hx('wide4'), spec3, spec4))
     w.add('json 3 3 s %s' % hx(b'{"keys":[1,2,3],"b":{"z":1,"a":2}}'))
+    w.add('sajson 3 3 s %s' % hx(b'{"keys":[1,2,3],"b":{"z":1,"a":2}}'))
+    w.add('json 4 3 s %s' % hx(b'{"keys":[1,2,3],"b":{"z":1,"a":2}}'))
+    w.add('json 3 3 s %s' % hx(b'{"keys":[4,5,6],"b":{"y":1,"a":2}}'))
     pairs = []
     for i, kind in enumerate(seq):
         a = w.add(call(kind, 1, 1, i))
@@ -61,6 +71,10 @@ def make_world(tag, seq, opt):
                             # locate the JSON entry text for this k
                             if b'"arr": [1' in c or b'"arr": [ 1' in c:
                                 return 'a Config without JSON options stored a JSON document in a non-default layout (%r ...): options of another Config leaked into the defaults' % c[c.find(b'"arr"'):c.find(b'"arr"') + 30]
+        w3 = [c for p, c in fs.items() if b'/wide/' in p and p.endswith(b'.snap.json')]
+        w5 = [c for p, c in fs.items() if b'/wide5/' in p and p.endswith(b'.snap.json')]
+        if w3 and w5 and w3[0] != w5[0]:
+            return 'two Configs built with the same JSON option stored the same document differently (%r / %r): building another Config from the same option value changed an existing one' % (w5[0][:60], w3[0][:60])
         sa = {p.split(b'/shared/')[-1]: c for p, c in fs.items() if b'/shared/' in p}
         sb = {p.split(b'/fresh/')[-1]: c for p, c in fs.items() if b'/fresh/' in p}
         if sa != sb:
